@@ -137,8 +137,13 @@ class C18(Prop):
             for n, meth, ovh in (("overhang_if_start_removed", "discard_start", "start_overhang"),
                                  ("overhang_if_end_removed", "discard_end", "end_overhang")):
                 if pre[n] is not None:
-                    # a deep copy: nothing the trial discard does may reach the object under observation
-                    cp = copy.deepcopy(r)
+                    # a copy one level deep (the object and every list / dict / set it holds, not the row
+                    # objects: Gap instances are interned and do not survive deepcopy): nothing the trial
+                    # discard does may reach the object under observation
+                    cp = copy.copy(r)
+                    for k_, v_ in list(getattr(cp, "__dict__", {}).items()):
+                        if isinstance(v_, (list, dict, set)):
+                            setattr(cp, k_, copy.copy(v_))
                     getattr(cp, meth)()
                     agree[n] = [pre[n], getattr(cp, ovh)]
             out["agree"].append(agree)
